@@ -185,14 +185,25 @@ fn translate_head(
             context,
         ),
         SExp::Atom(l, v) => match prim_map.get(v) {
-            None => translate_head(
-                allocator,
-                runner,
-                prim_map,
-                l.clone(),
-                Rc::new(SExp::Integer(l.clone(), number_from_u8(v))),
-                context,
-            ),
+            None => {
+                // An operator is identified by its exact bytes: 0x0001 is not
+                // quote, just as it isn't for the consensus evaluator.
+                let opcode = number_from_u8(v);
+                if u8_from_number(opcode.clone()) != *v {
+                    return Err(RunFailure::RunErr(
+                        l.clone(),
+                        format!("unknown operator {sexp}"),
+                    ));
+                }
+                translate_head(
+                    allocator,
+                    runner,
+                    prim_map,
+                    l.clone(),
+                    Rc::new(SExp::Integer(l.clone(), opcode)),
+                    context,
+                )
+            }
             Some(v) => Ok(Rc::new(v.with_loc(l.clone()))),
         },
         // A number in head position is an opcode, never the name of an operator
